@@ -3,7 +3,7 @@
 //!
 //! The protocol is documented in `lean/AndaVerif/Drv/ObjStoreProto.lean`.
 #![allow(dead_code)]
-use anda_object_store::{EncryptedStoreBuilder, MetaStoreBuilder};
+use anda_object_store::{EncryptedStore, EncryptedStoreBuilder, FaultHandle, FaultStore, MetaStore, MetaStoreBuilder};
 use bytes::Bytes;
 use futures::TryStreamExt;
 use object_store::{
@@ -88,11 +88,49 @@ pub fn build_store(fl: Flavor, inner: InMemory) -> Arc<dyn ObjectStore> {
     }
 }
 
+/// the wrapper with its concrete type (for `collect_garbage`), over a FaultStore
+#[derive(Clone)]
+pub enum Typed {
+    Meta(Arc<MetaStore<FaultStore<InMemory>>>),
+    Enc(Arc<EncryptedStore<FaultStore<InMemory>>>),
+    Plain,
+}
+
+impl Typed {
+    pub async fn collect_garbage(&self) -> object_store::Result<usize> {
+        match self {
+            Typed::Meta(s) => s.collect_garbage().await,
+            Typed::Enc(s) => s.collect_garbage().await,
+            Typed::Plain => Ok(0),
+        }
+    }
+}
+
+pub fn build_faulty(fl: Flavor, inner: InMemory) -> (Typed, Arc<dyn ObjectStore>, Option<FaultHandle>) {
+    match fl {
+        Flavor::Meta => {
+            let (fs, h) = FaultStore::wrap(inner);
+            let s = Arc::new(MetaStoreBuilder::new(fs, 1000).build());
+            let d: Arc<dyn ObjectStore> = s.clone();
+            (Typed::Meta(s), d, Some(h))
+        }
+        Flavor::Enc(c) => {
+            let (fs, h) = FaultStore::wrap(inner);
+            let s = Arc::new(EncryptedStoreBuilder::with_secret(fs, 1000, [7u8; 32]).with_chunk_size(c).build());
+            let d: Arc<dyn ObjectStore> = s.clone();
+            (Typed::Enc(s), d, Some(h))
+        }
+        Flavor::Plain => (Typed::Plain, Arc::new(inner), None),
+    }
+}
+
 /// One store under test plus its token table (first-occurrence ordinals).
 pub struct Sut {
     pub flavor: Flavor,
     pub backend: InMemory,
     pub store: Arc<dyn ObjectStore>,
+    pub typed: Typed,
+    pub handle: Option<FaultHandle>,
     pub toks: Vec<String>,
 }
 
@@ -112,12 +150,18 @@ pub struct ExecOut {
 
 impl Sut {
     pub fn new(fl: Flavor) -> Sut {
-        let backend = InMemory::new();
-        Sut { flavor: fl, store: build_store(fl, backend.clone()), backend, toks: vec![] }
+        Sut::over(fl, InMemory::new(), vec![])
+    }
+    pub fn over(fl: Flavor, backend: InMemory, toks: Vec<String>) -> Sut {
+        let (typed, store, handle) = build_faulty(fl, backend.clone());
+        Sut { flavor: fl, store, typed, handle, backend, toks }
     }
     /// fresh wrapper instance over the same backend (cold metadata cache)
     pub fn reopen(&mut self) {
-        self.store = build_store(self.flavor, self.backend.clone());
+        let (typed, store, handle) = build_faulty(self.flavor, self.backend.clone());
+        self.typed = typed;
+        self.store = store;
+        self.handle = handle;
     }
     pub fn ord(&mut self, t: Option<&str>) -> String {
         match t {
